@@ -50,8 +50,9 @@ TOL = 1e-6
 
 # (lb, ub) in the orientation `x -->` : lb = -(import cap), ub = export cap
 EX_B = [(-10.0, 1000.0)] * 3 + [(-1000.0, 1000.0)] * 2 + [(0.0, 1000.0), (-5.0, 0.0), (-10.0, 10.0), (-10.0, -1.0),
-                                                          (1.0, 10.0), (0.0, 0.0), (-2.5, 1000.0), (-3.0, 1000.0)]
-IN_B = [(0.0, 1000.0)] * 4 + [(-1000.0, 1000.0)] * 3 + [(0.0, 10.0), (-10.0, 10.0), (-1000.0, 0.0), (0.0, 5.0)]
+                                                          (1.0, 10.0), (0.0, 0.0), (-2.5, 1000.0), (-3.0, 1000.0),
+                                                          (-3000.0, 1000.0), (-2000.0, 500.0)]
+IN_B = [(0.0, 3000.0), (-3000.0, 1000.0)] + [(0.0, 1000.0)] * 4 + [(-1000.0, 1000.0)] * 3 + [(0.0, 10.0), (-10.0, 10.0), (-1000.0, 0.0), (0.0, 5.0)]
 VALUES = [0, 0.0, 1, 2.5, 5, 5.0, 10, 10.0, 1000, 1e-9]
 
 
@@ -130,6 +131,20 @@ def corner_specs():
            "objective": {"DM_b": 1.0}, "exchanges": ["EX_a", "EX_b"]}
 
 
+def asym_specs():
+    """the largest |bound| of the exchanges is an import bound (a lower bound for `x -->`, an upper bound for `--> x`) and the
+    targets need more import than any bound on the other side allows (big-M of add_mip_obj, open_exchanges numbers)"""
+    for rev in (False, True):
+        for big, other in ((3000.0, 1000.0), (3000.0, 10.0)):
+            ex_a = ["EX_a", -other, big, {"a_e": 1.0}, None] if rev else ["EX_a", -big, other, {"a_e": -1.0}, None]
+            yield {"id": f"asym{int(rev)}_{int(other)}", "metabolites": [["a_e", "e"], ["b_e", "e"], ["p_c", "c"]],
+                   "reactions": [ex_a, ["EX_b", -5.0, other, {"b_e": -1.0}, None],
+                                 ["R1", 0.0, 3000.0, {"a_e": -1.0, "p_c": 1.0}, None],
+                                 ["R2", 0.0, 3000.0, {"b_e": -1.0, "p_c": 2.0}, None],
+                                 ["DM_b", 0.0, 3000.0, {"p_c": -1.0}, None]],
+                   "objective": {"DM_b": 1.0}, "exchanges": ["EX_a", "EX_b"]}
+
+
 def build(spec):
     import cobra
     m = cobra.Model(spec["id"])
@@ -205,7 +220,7 @@ def close_imports(spec, bounds, allowed):
 # ----------------------------------------------------------------------------------------------------------------------
 def build_cases(tier, seed):
     rng = random.Random(seed * 15485863 + 5)
-    specs = list(corner_specs())
+    specs = list(corner_specs()) + list(asym_specs())
     n = 70 if tier == "quick" else 600
     for _ in range(n):
         specs.append(random_spec(rng))
